@@ -830,10 +830,15 @@ def _str_encode(s, encoding='utf-8', errors='strict'):
 @method_model('str', 'join')
 def _str_join(s, items):
     from . import loops as _loops
+    c = _loops.concretize_count(s.seq.n)
+    if isinstance(items, SAbs):
+        if c is None:
+            raise E.Unsupported('str.join with a symbolic separator')
+        sep0 = bytes(V.simp(s.seq.at(z3.IntVal(k))).as_long() for k in range(c)).decode('utf-8')
+        return V.SText([('abs', ('join', sep0, items))])
     view = _loops.iteration_view(items)
     if view[0] != 'concrete':
         raise E.Unsupported('str.join over a symbolic-length iterable')
-    c = _loops.concretize_count(s.seq.n)
     if c is None:
         raise E.Unsupported('str.join with a symbolic separator')
     sep = bytes(V.simp(s.seq.at(z3.IntVal(k))).as_long() for k in range(c)).decode('utf-8')
@@ -845,6 +850,10 @@ def _str_join(s, items):
             parts.append(('lit', it))
         elif isinstance(it, V.SText):
             parts.extend(it.parts)
+        elif isinstance(it, SStr):
+            parts.append(('text', it))
+        elif isinstance(it, SAbs):
+            parts.append(('abs', it))
         else:
             raise E.Unsupported('str.join of %s' % type(it).__name__)
     if all(kind == 'lit' for kind, _ in parts):
